@@ -20,6 +20,7 @@ ANCHOR_HINTS = ["asm_manual_parser_w_regex", "gnu_objdump_parser_manual"]
 REQUIRED_EVENTS = ["pairs_compared"]
 
 SYMS = ["main", "_start", "f.cold", "foo@plt", "L1", "add", "x<y>", "operator<<", "a b", "#hash", "data16 x"]
+SYMS[5:5] = ["foo(int, char)", "std::vector<int, std::allocator<int> >::push_back(int const&)"]      # demangled names (objdump -C)
 
 
 def core_of(text: str) -> str:
